@@ -122,18 +122,27 @@ func cmdC16(args []string) error {
 			run.NFiles = rng.Intn(8)
 		}
 		pattern := rng.Intn(5)
+		// "the directory is in any state": besides changed and missing content, a file entry may be a symlink to
+		// a file with exactly the signed content ("linked"), a symlink to an endless source ("endless"), a directory,
+		// longer or shorter than signed. (The small configurations bound to Validator.tla keep the model's kinds.)
+		dmg := []string{"bad", "missing"}
+		if !*small {
+			dmg = []string{"bad", "missing", "bad", "missing", "linked", "endless", "dir", "longer", "shorter"}
+		}
 		for i := 0; i < run.NFiles; i++ {
 			kind := "ok"
 			switch pattern {
 			case 0: // all fine
 			case 1: // damage only in the last file
 				if i == run.NFiles-1 {
-					kind = []string{"bad", "missing"}[rng.Intn(2)]
+					kind = dmg[rng.Intn(len(dmg))]
 				}
 			case 2: // everything damaged
-				kind = []string{"bad", "missing"}[rng.Intn(2)]
+				kind = dmg[rng.Intn(len(dmg))]
 			default:
-				kind = []string{"ok", "ok", "bad", "missing"}[rng.Intn(4)]
+				if rng.Intn(2) == 0 {
+					kind = dmg[rng.Intn(len(dmg))]
+				}
 			}
 			run.Kinds = append(run.Kinds, kind)
 		}
@@ -244,6 +253,24 @@ func cmdC16(args []string) error {
 				os.WriteFile(p, b, 0644)
 			case "missing":
 				os.Remove(p)
+			case "linked":
+				b, _ := os.ReadFile(p)
+				side := filepath.Join(root, fmt.Sprintf("side-%d", i))
+				os.WriteFile(side, b, 0644)
+				os.Remove(p)
+				os.Symlink(side, p)
+			case "endless":
+				os.Remove(p)
+				os.Symlink("/dev/zero", p)
+			case "dir":
+				os.Remove(p)
+				os.MkdirAll(filepath.Join(p, "sub"), 0755)
+			case "longer":
+				b, _ := os.ReadFile(p)
+				os.WriteFile(p, append(b, 'x'), 0644)
+			case "shorter":
+				b, _ := os.ReadFile(p)
+				os.WriteFile(p, b[:len(b)-1], 0644)
 			}
 		}
 		for i := 0; i < run.NDirW; i++ {
